@@ -308,7 +308,7 @@ func gen(r *vlib.R, n int, tier string, emit func(string)) {
 	r = vlib.NewR(r.U64() ^ 0xc13c13c13c13c13)
 	probeBudget = 60
 	if tier == "thorough" {
-		probeBudget = 250
+		probeBudget = 150
 	}
 	genL3(r, tier, emit, &n)
 	genStateless(r, emit, &n, 40)
@@ -591,7 +591,12 @@ func (g *caseGen) audiences() {
 				g.out("fail serve %s %d %d %s %s %d local:attempt", hexName(o.name), o.t, o.c, vlib.B(o.cd), vlib.B(r.Bool()), g.t)
 			}
 		case 3:
-			g.out("fail probe %d 2 %s %s", g.t, o, q)
+			if probeBudget > 0 {
+				probeBudget--
+				g.out("fail probe %d 2 %s %s", g.t, o, q)
+			} else {
+				g.out("fail slookup %s %d", o, g.t)
+			}
 		}
 	}
 }
